@@ -21,6 +21,8 @@ type Ctx struct {
 	E    *paths.Engine
 	C    *report.Check
 	Tier string
+	// VerifDir is the verification directory (canary packages, known findings).
+	VerifDir string
 	// Only, when non-empty, restricts reporting to this obligation key (replay).
 	Only string
 }
